@@ -1,7 +1,7 @@
 SPECIFICATION Spec
 CONSTANTS
   Nodes = {"n1", "n2", "n3"}
-  RoleCfgs <- MCRoleCfgsQuick
+  RoleCfgs <- GenLimitCfgs
   Roles <- MCRoles
   ReqTypes = {"friend", "parent", "uncle", "none", "children", "bad"}
   RespTypes = {"friend", "children", "nephew", "other", "none", "parent"}
@@ -10,12 +10,12 @@ CONSTANTS
   LimChildren = 1
   LimNephew = 1
   LimOther = 1
-  MaxOps = 3
-  MaxInject = 1
-  MaxCloses = 2
-  MaxRoleChanges = 1
-  OnlyDiscover = FALSE
+  MaxOps = 6
+  MaxInject = 0
+  MaxCloses = 0
+  MaxRoleChanges = 0
+  OnlyDiscover = TRUE
   Dials <- MCDials
-  RecordHist = FALSE
-INVARIANT TypeOK LimitsHold Agreement
-PROPERTIES RootsNotInTree
+  RecordHist = TRUE
+  Depth = 6
+INVARIANT Emit
